@@ -68,3 +68,10 @@ check(
     "Scalar operators are the reference (C03/C04 vouch for them); 4 ulp tolerance; one-dimensional non-ragged containers.",
     "4/C10",
 )
+check(
+    "C11",
+    "runtime monitoring: size-invariant monitor (every result + gc sweep of all live FixedArray/Curve instances) over generated construction routes, operation chains and Curve set-call histories; accept/refuse outcome predicted by a small reference model; ChangingIndex/IndexAsScalar against the database's float conversion",
+    "Held for 18 construction routes x dimension 0..6 x 4 container kinds x length 0..7 (accept iff d>=2 and len==d, refusal is ValueError, caller container/source untouched), chains of 1-6 copy/arithmetic/ChangingIndex/pickle steps with refused attempts interleaved (dimension kept), ChangingIndex in 8 amount forms x use_value_unit (only the given index differs, quantity rule, source untouched), IndexAsScalar, and Curve histories of 1-20 set calls (lengths always equal, refused calls change nothing).",
+    "One-dimensional containers and int dimensions; conversion reference is the database's own float conversion with the running error scale; an out-of-range index may raise any exception.",
+    "4/C11",
+)
